@@ -61,6 +61,50 @@ def do_read(a, kind):
         a.lengths
     elif kind == "copy":
         copy.deepcopy(a)
+    # array functions / reductions executed for their result only
+    elif kind == "unique":
+        np.unique(a, axis=-1, return_counts=True)
+    elif kind == "cumsum":
+        np.cumsum(a, axis=-1)
+    elif kind == "sort":
+        a.sort(axis=-1)
+    elif kind == "diff":
+        np.diff(a, axis=-1)
+    elif kind == "accumulate":
+        np.add.accumulate(a, axis=-1)
+    elif kind == "max":
+        if all(l > 0 for l in a.lengths) and len(a):
+            a.max(axis=-1)
+    elif kind == "mean":
+        if a.size:
+            a.mean(axis=0)
+    elif kind == "argmax":
+        if all(l > 0 for l in a.lengths) and len(a):
+            a.argmax(axis=-1)
+    elif kind == "pad":
+        if len(a):
+            a.as_padded_matrix()
+    elif kind == "where":
+        np.where(a > 12, a, a)
+    elif kind == "concat":
+        np.concatenate([a, a])
+    elif kind == "colbroadcast":
+        if len(a):
+            a + np.arange(len(a))[:, None]
+    elif kind == "zeros_like":
+        np.zeros_like(a)
+    elif kind == "colvalues":
+        a.get_column_values(0)
+    elif kind == "getrow":
+        if len(a):
+            a[0]
+    elif kind == "getelem":
+        if len(a) and a.lengths[0] > 0:
+            a[0, 0]
+    elif kind == "rowcol":
+        a[:, 0:1]
+    elif kind == "any":
+        a.any(axis=-1)
     else:
         raise ValueError(kind)
 
@@ -156,7 +200,12 @@ def run_program(prog, opts=None, observe="all"):
         objs = []
         out = []
         for i, st in enumerate(prog):
-            res = step(objs, st, o)
+            hs = [st[1]] if st[0] in ("select", "assign", "read") else [x[1] for x in (st[2], st[3]) if x[0] == "h"] if st[0] == "ufunc" \
+                else ([st[2], st[3][0]] if st[1] == "concat" else [st[2]]) if st[0] == "func" else []
+            if any(h > len(objs) for h in hs):
+                res = ["obs", ["raised", "MissingHandle"]]       # an earlier step failed to create it: reported there
+            else:
+                res = step(objs, st, o)
             ob = [shadow(x) for x in objs] if (observe == "all" or i == len(prog) - 1) else None
             out.append({"res": res, "obs": ob})
         return out
